@@ -207,8 +207,18 @@ def identity_snapshot(roots, extra_nodes=()):
     """identity-based deep snapshot used by the frame conditions (C11, C12, C16):
     per node object: every field, children identities, parent identity; plus the registry."""
     d = {}
+
+    def safe_preorder(n, out):
+        out.append(n)
+        if isinstance(n, Node):
+            for c in n.children:
+                safe_preorder(c, out)
+        return out
     for r in list(roots) + list(extra_nodes):
-        for n in (preorder(r) if r in roots else [r]):
+        for n in (safe_preorder(r, []) if r in roots else [r]):
+            if not isinstance(n, Node):
+                d[id(n)] = ("<not a Node>", repr(n)[:60], None, None, (), (), None, (), (), None)   # (a child list holding something else)
+                continue
             d[id(n)] = (n.id, n.name, n.content, n.tail, tuple(n.attributes.items()), tuple(n.extras.items()),
                         n.prefix, tuple(n.nsmap.items()), tuple(id(c) for c in n.children),
                         id(n.parent) if n.parent is not None else None)
